@@ -1,4 +1,6 @@
 import ImathVerif.Model.ColorAlgo
+import ImathVerif.Lemmas.FunLemmas
+import Mathlib.Data.Rat.Floor
 import Mathlib.Algebra.Order.Floor.Ring
 import Mathlib.Tactic.Linarith
 import Mathlib.Tactic.Ring
@@ -67,5 +69,460 @@ theorem min3_eq (x y z : α) :
   · have h1' : y ≤ x := not_lt.mp h1
     have h2' : z ≤ y := not_lt.mp h2
     rw [min_eq_right h2', min_eq_right (le_trans h2' h1')]
+
+/-- the `switch (i)` of `hsv2rgb_d` -/
+def sextant (k : Int) (v p q t : α) : V3 α :=
+  match k with
+  | 0 => ⟨v, t, p⟩
+  | 1 => ⟨q, v, p⟩
+  | 2 => ⟨p, v, t⟩
+  | 3 => ⟨p, q, v⟩
+  | 4 => ⟨t, p, v⟩
+  | 5 => ⟨v, p, q⟩
+  | _ => ⟨0, 0, 0⟩
+
+/-- `hsv2rgb_d` in sextant `k` (0 ≤ k ≤ 5): k ≤ 6·hue < k+1 -/
+theorem hsv2rgbV3_sextant {fl : α → Int} (hfl : IsFloor fl) (h s v : α) (k : Int)
+    (hk0 : 0 ≤ k) (hk5 : k ≤ 5) (h1 : (k : α) ≤ h * 6) (h2 : h * 6 < (k : α) + 1) :
+    hsv2rgbV3 fl ⟨h, s, v⟩ =
+      sextant k v (v * (1 - s)) (v * (1 - (s * (h * 6 - (k : α))))) (v * (1 - (s * (1 - (h * 6 - (k : α)))))) := by
+  have hne : h ≠ 1 := by
+    intro h0; rw [h0] at h2
+    have : (k : α) ≤ 5 := by exact_mod_cast hk5
+    linarith
+  unfold hsv2rgbV3
+  simp only [beq_iff_eq, hne, if_false]
+  rw [floor_eq_of hfl (h * 6) k h1 h2]
+  interval_cases k <;> rfl
+
+/-- hue-wrap convention: hue = 1 is treated as hue = 0 -/
+theorem hsv2rgbV3_hue_one (fl : α → Int) (s v : α) :
+    hsv2rgbV3 fl ⟨1, s, v⟩ = hsv2rgbV3 fl ⟨0, s, v⟩ := by
+  unfold hsv2rgbV3
+  simp
+
+/-- grey axis: saturation 0 gives (v, v, v) for every hue in [0, 1] -/
+theorem hsv2rgbV3_grey {fl : α → Int} (hfl : IsFloor fl) (h v : α) (h0 : 0 ≤ h) (h1 : h ≤ 1) :
+    hsv2rgbV3 fl ⟨h, 0, v⟩ = ⟨v, v, v⟩ := by
+  rcases h1.lt_or_eq with hlt | heq
+  · have hb := hfl (h * 6)
+    set k := fl (h * 6) with hk
+    have hk0 : 0 ≤ k := by
+      have : ((-1 : Int) : α) < (k : α) := by push_cast; linarith [hb.2]
+      have := Int.cast_lt.mp this; omega
+    have hk5 : k ≤ 5 := by
+      have : (k : α) < ((6 : Int) : α) := by push_cast; linarith [hb.1]
+      have := Int.cast_lt.mp this; omega
+    rw [hsv2rgbV3_sextant hfl h 0 v k hk0 hk5 hb.1 hb.2]
+    interval_cases k <;> simp [sextant]
+  · rw [heq, hsv2rgbV3_hue_one]
+    rw [hsv2rgbV3_sextant hfl 0 0 v 0 (le_refl _) (by norm_num) (by simp) (by simp)]
+    simp [sextant]
+
+/-- grey axis / black: rgb2hsv of (v, v, v) is (0, 0, v) -/
+theorem rgb2hsvV3_grey (v : α) : rgb2hsvV3 ⟨v, v, v⟩ = ⟨0, 0, v⟩ := by
+  unfold rgb2hsvV3
+  by_cases hv : v = 0 <;> simp [hv]
+
+/-- `rgb2hsv_d` off the grey axis, in terms of M = max, m = min -/
+theorem rgb2hsvV3_eval (x y z M m : α) (hMdef : max x (max y z) = M) (hmdef : min x (min y z) = m)
+    (hM0 : M ≠ 0) (hMm : M ≠ m) :
+    rgb2hsvV3 ⟨x, y, z⟩ =
+      ⟨(if (if x = M then (y - z) / (M - m) else if y = M then 2 + (z - x) / (M - m)
+              else 4 + (x - y) / (M - m)) / 6 < 0
+        then (if x = M then (y - z) / (M - m) else if y = M then 2 + (z - x) / (M - m)
+              else 4 + (x - y) / (M - m)) / 6 + 1
+        else (if x = M then (y - z) / (M - m) else if y = M then 2 + (z - x) / (M - m)
+              else 4 + (x - y) / (M - m)) / 6),
+       (M - m) / M, M⟩ := by
+  have hsat : (M - m) / M ≠ 0 := div_ne_zero (sub_ne_zero.mpr hMm) hM0
+  unfold rgb2hsvV3
+  simp only []
+  rw [max3_eq, min3_eq, hMdef, hmdef]
+  simp only [bne_iff_ne, ne_eq, hM0, not_false_eq_true, if_true, hsat, beq_iff_eq]
+
+/-- `hsv2rgb_d` at hue (k+f)/6, saturation (M-m)/M, value M -/
+theorem hsv2rgbV3_leaf {fl : α → Int} (hfl : IsFloor fl) (M m f : α) (k : Int) (hM : M ≠ 0)
+    (hk0 : 0 ≤ k) (hk5 : k ≤ 5) (hf0 : 0 ≤ f) (hf1 : f < 1) :
+    hsv2rgbV3 fl ⟨((k : α) + f) / 6, (M - m) / M, M⟩ =
+      sextant k M m (M - (M - m) * f) (m + (M - m) * f) := by
+  have e : ((k : α) + f) / 6 * 6 = (k : α) + f := by field_simp
+  rw [hsv2rgbV3_sextant hfl _ _ _ k hk0 hk5 (by rw [e]; linarith) (by rw [e]; linarith), e]
+  congr 1
+  · field_simp; ring
+  · field_simp; ring
+  · field_simp; ring
+
+/-- hsv2rgb ∘ rgb2hsv = id on every colour with non-negative components (in particular the unit cube) -/
+theorem hsv2rgb_rgb2hsv_V3 {fl : α → Int} (hfl : IsFloor fl) (x y z : α)
+    (hx : 0 ≤ x) (hy : 0 ≤ y) (hz : 0 ≤ z) :
+    hsv2rgbV3 fl (rgb2hsvV3 ⟨x, y, z⟩) = ⟨x, y, z⟩ := by
+  by_cases hgrey : x = y ∧ y = z
+  · obtain ⟨h1, h2⟩ := hgrey
+    subst h1; subst h2
+    rw [rgb2hsvV3_grey, hsv2rgbV3_grey hfl 0 x (le_refl _) (by norm_num)]
+  -- off the grey axis: M > m ≥ 0
+  set M := max x (max y z) with hMdef
+  set m := min x (min y z) with hmdef
+  have hxM : x ≤ M := le_max_left _ _
+  have hyM : y ≤ M := le_trans (le_max_left _ _) (le_max_right _ _)
+  have hzM : z ≤ M := le_trans (le_max_right _ _) (le_max_right _ _)
+  have hmx : m ≤ x := min_le_left _ _
+  have hmy : m ≤ y := le_trans (min_le_right _ _) (min_le_left _ _)
+  have hmz : m ≤ z := le_trans (min_le_right _ _) (min_le_right _ _)
+  have hm0 : 0 ≤ m := le_min hx (le_min hy hz)
+  have hMm : M ≠ m := by
+    intro h
+    apply hgrey
+    constructor <;> linarith
+  have hlt : m < M := lt_of_le_of_ne (le_trans hmx hxM) (Ne.symm hMm)
+  have hMpos : 0 < M := lt_of_le_of_lt hm0 hlt
+  have hM0 : M ≠ 0 := hMpos.ne'
+  have hr : 0 < M - m := sub_pos.mpr hlt
+  have hr0 : M - m ≠ 0 := hr.ne'
+  rw [rgb2hsvV3_eval x y z M m rfl rfl hM0 hMm]
+  by_cases c1 : x = M
+  · rw [if_pos c1]
+    have hmin : m = min y z := by
+      rw [hmdef]; exact min_eq_right (le_trans (min_le_left _ _) (by rw [c1]; exact hyM))
+    by_cases c2 : z ≤ y
+    · have hmz' : m = z := by rw [hmin]; exact min_eq_right c2
+      have hnn : ¬ ((y - z) / (M - m) / 6 < 0) := by
+        rw [not_lt]; apply div_nonneg (div_nonneg (by linarith) hr.le) (by norm_num)
+      rw [if_neg hnn]
+      by_cases c3 : y = M
+      · -- h = 1, sextant 1 with f = 0
+        have e : (y - z) / (M - m) / 6 = (((1 : Int) : α) + 0) / 6 := by
+          rw [c3, hmz', div_self (by rw [← hmz']; exact hr0)]; push_cast; ring
+        rw [e, hsv2rgbV3_leaf hfl M m 0 1 hM0 (by norm_num) (by norm_num) (le_refl _) (by norm_num)]
+        simp only [sextant, mul_zero, sub_zero, V3.mk.injEq]
+        exact ⟨c1.symm, c3.symm, hmz'⟩
+      · have hyl : y < M := lt_of_le_of_ne hyM c3
+        have e : (y - z) / (M - m) / 6 = (((0 : Int) : α) + (y - z) / (M - m)) / 6 := by push_cast; ring
+        rw [e, hsv2rgbV3_leaf hfl M m ((y - z) / (M - m)) 0 hM0 (le_refl _) (by norm_num)
+          (div_nonneg (by linarith) hr.le) (by rw [div_lt_one hr]; linarith)]
+        simp only [sextant, V3.mk.injEq]
+        refine ⟨c1.symm, ?_, hmz'⟩
+        rw [mul_div_cancel₀ _ hr0]; linarith
+    · have c2' : y < z := not_le.mp c2
+      have hmy' : m = y := by rw [hmin]; exact min_eq_left c2'.le
+      have hneg : (y - z) / (M - m) / 6 < 0 := by
+        apply div_neg_of_neg_of_pos (div_neg_of_neg_of_pos (by linarith) hr) (by norm_num)
+      rw [if_pos hneg]
+      have e : (y - z) / (M - m) / 6 + 1 = (((5 : Int) : α) + ((y - z) / (M - m) + 1)) / 6 := by
+        push_cast; ring
+      have hf0 : 0 ≤ (y - z) / (M - m) + 1 := by
+        have : -1 ≤ (y - z) / (M - m) := by rw [le_div_iff₀ hr]; linarith
+        linarith
+      have hf1 : (y - z) / (M - m) + 1 < 1 := by
+        have : (y - z) / (M - m) < 0 := div_neg_of_neg_of_pos (by linarith) hr
+        linarith
+      rw [e, hsv2rgbV3_leaf hfl M m _ 5 hM0 (by norm_num) (le_refl _) hf0 hf1]
+      simp only [sextant, V3.mk.injEq]
+      refine ⟨c1.symm, hmy', ?_⟩
+      rw [mul_add, mul_div_cancel₀ _ hr0]; linarith
+  · have hxl : x < M := lt_of_le_of_ne hxM c1
+    rw [if_neg c1]
+    by_cases c2 : y = M
+    · rw [if_pos c2]
+      have hmin : m = min x z := by
+        rw [hmdef]
+        rcases le_total x z with h | h
+        · rw [min_eq_left h, min_eq_left]; exact le_min (le_trans hxM (by rw [c2])) h
+        · rw [min_eq_right h, min_eq_right]
+          · exact min_eq_right (by rw [c2]; exact hzM)
+          · exact le_trans (min_le_right _ _) h
+      by_cases c3 : x ≤ z
+      · have hmx' : m = x := by rw [hmin]; exact min_eq_left c3
+        have hnn : ¬ ((2 + (z - x) / (M - m)) / 6 < 0) := by
+          rw [not_lt]; apply div_nonneg (add_nonneg (by norm_num) (div_nonneg (by linarith) hr.le)) (by norm_num)
+        rw [if_neg hnn]
+        by_cases c4 : z = M
+        · have e : (2 + (z - x) / (M - m)) / 6 = (((3 : Int) : α) + 0) / 6 := by
+            rw [c4, hmx', div_self (by rw [← hmx']; exact hr0)]; push_cast; ring
+          rw [e, hsv2rgbV3_leaf hfl M m 0 3 hM0 (by norm_num) (by norm_num) (le_refl _) (by norm_num)]
+          simp only [sextant, mul_zero, sub_zero, V3.mk.injEq]
+          exact ⟨hmx', c2.symm, c4.symm⟩
+        · have hzl : z < M := lt_of_le_of_ne hzM c4
+          have e : (2 + (z - x) / (M - m)) / 6 = (((2 : Int) : α) + (z - x) / (M - m)) / 6 := by push_cast; ring
+          rw [e, hsv2rgbV3_leaf hfl M m ((z - x) / (M - m)) 2 hM0 (by norm_num) (by norm_num)
+            (div_nonneg (by linarith) hr.le) (by rw [div_lt_one hr]; linarith)]
+          simp only [sextant, V3.mk.injEq]
+          refine ⟨hmx', c2.symm, ?_⟩
+          rw [mul_div_cancel₀ _ hr0]; linarith
+      · have c3' : z < x := not_le.mp c3
+        have hmz' : m = z := by rw [hmin]; exact min_eq_right c3'.le
+        have hgt : -1 < (z - x) / (M - m) := by rw [lt_div_iff₀ hr]; linarith
+        have hlt0 : (z - x) / (M - m) < 0 := div_neg_of_neg_of_pos (by linarith) hr
+        have hnn : ¬ ((2 + (z - x) / (M - m)) / 6 < 0) := by
+          rw [not_lt]; apply div_nonneg (by linarith) (by norm_num)
+        rw [if_neg hnn]
+        have e : (2 + (z - x) / (M - m)) / 6 = (((1 : Int) : α) + ((z - x) / (M - m) + 1)) / 6 := by push_cast; ring
+        rw [e, hsv2rgbV3_leaf hfl M m _ 1 hM0 (by norm_num) (by norm_num) (by linarith) (by linarith)]
+        simp only [sextant, V3.mk.injEq]
+        refine ⟨?_, c2.symm, hmz'⟩
+        rw [mul_add, mul_div_cancel₀ _ hr0]; linarith
+    · have hyl : y < M := lt_of_le_of_ne hyM c2
+      rw [if_neg c2]
+      have hzM' : z = M := by
+        rcases max_choice x (max y z) with h | h
+        · exact absurd (hMdef.trans h).symm c1
+        · rcases max_choice y z with h' | h'
+          · exact absurd (hMdef.trans (h.trans h')).symm c2
+          · exact (hMdef.trans (h.trans h')).symm
+      have hmin : m = min x y := by
+        rw [hmdef]
+        rcases le_total x y with h | h
+        · rw [min_eq_left h, min_eq_left]; exact le_min h (by rw [hzM']; exact hxM)
+        · rw [min_eq_right h, min_eq_right]
+          · exact min_eq_left (by rw [hzM']; exact hyM)
+          · exact le_trans (min_le_left _ _) h
+      by_cases c3 : y ≤ x
+      · have hmy' : m = y := by rw [hmin]; exact min_eq_right c3
+        have hnn : ¬ ((4 + (x - y) / (M - m)) / 6 < 0) := by
+          rw [not_lt]; apply div_nonneg (add_nonneg (by norm_num) (div_nonneg (by linarith) hr.le)) (by norm_num)
+        rw [if_neg hnn]
+        have e : (4 + (x - y) / (M - m)) / 6 = (((4 : Int) : α) + (x - y) / (M - m)) / 6 := by push_cast; ring
+        rw [e, hsv2rgbV3_leaf hfl M m ((x - y) / (M - m)) 4 hM0 (by norm_num) (by norm_num)
+          (div_nonneg (by linarith) hr.le) (by rw [div_lt_one hr]; linarith)]
+        simp only [sextant, V3.mk.injEq]
+        refine ⟨?_, hmy', hzM'.symm⟩
+        rw [mul_div_cancel₀ _ hr0]; linarith
+      · have c3' : x < y := not_le.mp c3
+        have hmx' : m = x := by rw [hmin]; exact min_eq_left c3'.le
+        have hgt : -1 < (x - y) / (M - m) := by rw [lt_div_iff₀ hr]; linarith
+        have hlt0 : (x - y) / (M - m) < 0 := div_neg_of_neg_of_pos (by linarith) hr
+        have hnn : ¬ ((4 + (x - y) / (M - m)) / 6 < 0) := by
+          rw [not_lt]; apply div_nonneg (by linarith) (by norm_num)
+        rw [if_neg hnn]
+        have e : (4 + (x - y) / (M - m)) / 6 = (((3 : Int) : α) + ((x - y) / (M - m) + 1)) / 6 := by push_cast; ring
+        rw [e, hsv2rgbV3_leaf hfl M m _ 3 hM0 (by norm_num) (by norm_num) (by linarith) (by linarith)]
+        simp only [sextant, V3.mk.injEq]
+        refine ⟨hmx', ?_, hzM'.symm⟩
+        rw [mul_add, mul_div_cancel₀ _ hr0]; linarith
+
+/-- rgb2hsv ∘ hsv2rgb = id for 0 ≤ hue < 1, saturation > 0, value > 0 (conventions for the
+excluded boundary: `hsv2rgbV3_hue_one` (hue 1 ≡ hue 0), `hsv2rgbV3_grey` + `rgb2hsvV3_grey`
+(saturation 0 or value 0 ↦ hue 0, saturation 0)). -/
+theorem rgb2hsv_hsv2rgb_V3 {fl : α → Int} (hfl : IsFloor fl) (h s v : α)
+    (hh0 : 0 ≤ h) (hh1 : h < 1) (hs : 0 < s) (hv : 0 < v) :
+    rgb2hsvV3 (hsv2rgbV3 fl ⟨h, s, v⟩) = ⟨h, s, v⟩ := by
+  have hb := hfl (h * 6)
+  set k := fl (h * 6) with hk
+  have hk0 : 0 ≤ k := by
+    have : ((-1 : Int) : α) < (k : α) := by push_cast; linarith [hb.2]
+    have := Int.cast_lt.mp this; omega
+  have hk5 : k ≤ 5 := by
+    have : (k : α) < ((6 : Int) : α) := by push_cast; linarith [hb.1]
+    have := Int.cast_lt.mp this; omega
+  rw [hsv2rgbV3_sextant hfl h s v k hk0 hk5 hb.1 hb.2]
+  set f := h * 6 - (k : α) with hf
+  have hf0 : 0 ≤ f := by linarith [hb.1]
+  have hf1 : f < 1 := by linarith [hb.2]
+  have hh : h = ((k : α) + f) / 6 := by rw [hf]; ring
+  set p := v * (1 - s) with hp
+  set q := v * (1 - s * f) with hq
+  set t := v * (1 - s * (1 - f)) with ht
+  have hvs : 0 < v * s := mul_pos hv hs
+  have hpv : p < v := by rw [hp]; nlinarith
+  have hvp : v - p = v * s := by rw [hp]; ring
+  have hvp0 : v - p ≠ 0 := by rw [hvp]; exact hvs.ne'
+  have hpt : p ≤ t := by rw [hp, ht]; nlinarith
+  have htv : t < v := by rw [ht]; nlinarith
+  have hpq : p < q := by rw [hp, hq]; nlinarith
+  have hqv : q ≤ v := by rw [hq]; nlinarith
+  have hsat : (v - p) / v = s := by rw [hvp]; field_simp
+  have htp : (t - p) / (v - p) = f := by rw [hvp, ht, hp]; field_simp; ring
+  have hpq' : (p - q) / (v - p) = f - 1 := by rw [hvp, hq, hp]; field_simp; ring
+  have hone : (v - p) / (v - p) = 1 := div_self hvp0
+  have hv0 : v ≠ 0 := hv.ne'
+  have hvpne : v ≠ p := hpv.ne'
+  interval_cases k
+  · -- ⟨v, t, p⟩
+    simp only [sextant]
+    rw [rgb2hsvV3_eval v t p v p (by rw [max_eq_left (max_le htv.le hpv.le)])
+      (by rw [min_eq_right hpt, min_eq_right hpv.le]) hv0 hvpne, hsat]
+    simp only [if_true, htp]
+    rw [if_neg (by rw [not_lt]; positivity), hh]; push_cast; ring_nf
+  · simp only [sextant]
+    rw [rgb2hsvV3_eval q v p v p (by rw [max_eq_left hpv.le, max_eq_right hqv])
+      (by rw [min_eq_right hpv.le, min_eq_right hpq.le]) hv0 hvpne, hsat]
+    by_cases hq1 : q = v
+    · have hf00 : f = 0 := by
+        have : v * (s * f) = 0 := by rw [hq] at hq1; linear_combination -hq1
+        rcases mul_eq_zero.mp this with h' | h'
+        · exact absurd h' hv0
+        · rcases mul_eq_zero.mp h' with h'' | h''
+          · exact absurd h'' hs.ne'
+          · exact h''
+      simp only [hq1, if_true, hone]
+      rw [if_neg (by norm_num), hh, hf00]; push_cast; ring_nf
+    · simp only [hq1, if_false, if_true, hpq']
+      rw [if_neg (by rw [not_lt]; apply div_nonneg (by linarith) (by norm_num)), hh]; push_cast; ring_nf
+  · simp only [sextant]
+    rw [rgb2hsvV3_eval p v t v p (by rw [max_eq_left htv.le, max_eq_right hpv.le])
+      (by rw [min_eq_left (le_min hpv.le hpt)]) hv0 hvpne, hsat]
+    simp only [hvpne.symm, if_false, if_true, htp]
+    rw [if_neg (by rw [not_lt]; apply div_nonneg (by linarith) (by norm_num)), hh]; push_cast; ring_nf
+  · simp only [sextant]
+    rw [rgb2hsvV3_eval p q v v p (by rw [max_eq_right hqv, max_eq_right hpv.le])
+      (by rw [min_eq_left (le_min hpq.le hpv.le)]) hv0 hvpne, hsat]
+    by_cases hq1 : q = v
+    · have hf00 : f = 0 := by
+        have : v * (s * f) = 0 := by rw [hq] at hq1; linear_combination -hq1
+        rcases mul_eq_zero.mp this with h' | h'
+        · exact absurd h' hv0
+        · rcases mul_eq_zero.mp h' with h'' | h''
+          · exact absurd h'' hs.ne'
+          · exact h''
+      simp only [hvpne.symm, if_false, hq1, if_true, hone]
+      rw [if_neg (by norm_num), hh, hf00]; push_cast; ring_nf
+    · simp only [hvpne.symm, if_false, hq1, hpq']
+      rw [if_neg (by rw [not_lt]; apply div_nonneg (by linarith) (by norm_num)), hh]; push_cast; ring_nf
+  · simp only [sextant]
+    rw [rgb2hsvV3_eval t p v v p (by rw [max_eq_right hpv.le, max_eq_right htv.le])
+      (by rw [min_eq_left hpv.le, min_eq_right hpt]) hv0 hvpne, hsat]
+    simp only [htv.ne, hvpne.symm, if_false, htp]
+    rw [if_neg (by rw [not_lt]; apply div_nonneg (by linarith) (by norm_num)), hh]; push_cast; ring_nf
+  · simp only [sextant]
+    rw [rgb2hsvV3_eval v p q v p (by rw [max_eq_left (max_le hpv.le hqv)])
+      (by rw [min_eq_left hpq.le, min_eq_right hpv.le]) hv0 hvpne, hsat]
+    simp only [if_true, hpq']
+    rw [if_pos (by apply div_neg_of_neg_of_pos (by linarith) (by norm_num)), hh]; push_cast; ring_nf
 end
+
+section
+variable {α : Type} [Field α] [LinearOrder α] [IsStrictOrderedRing α]
+
+/-- Color4 round trips follow from the Vec3 ones; alpha is untouched -/
+theorem hsv2rgb_rgb2hsv_C4 {fl : α → Int} (hfl : IsFloor fl) (c : C4 α)
+    (hr : 0 ≤ c.r) (hg : 0 ≤ c.g) (hb : 0 ≤ c.b) : hsv2rgbC4 fl (rgb2hsvC4 c) = c := by
+  rw [hsv2rgbC4_eq_V3, rgb2hsvC4_eq_V3]
+  simp only []
+  rw [show (⟨(rgb2hsvV3 ⟨c.r, c.g, c.b⟩).x, (rgb2hsvV3 ⟨c.r, c.g, c.b⟩).y, (rgb2hsvV3 ⟨c.r, c.g, c.b⟩).z⟩ : V3 α)
+    = rgb2hsvV3 ⟨c.r, c.g, c.b⟩ from rfl, hsv2rgb_rgb2hsv_V3 hfl _ _ _ hr hg hb]
+
+theorem rgb2hsv_hsv2rgb_C4 {fl : α → Int} (hfl : IsFloor fl) (c : C4 α)
+    (hh0 : 0 ≤ c.r) (hh1 : c.r < 1) (hs : 0 < c.g) (hv : 0 < c.b) : rgb2hsvC4 (hsv2rgbC4 fl c) = c := by
+  rw [rgb2hsvC4_eq_V3, hsv2rgbC4_eq_V3]
+  simp only []
+  rw [show (⟨(hsv2rgbV3 fl ⟨c.r, c.g, c.b⟩).x, (hsv2rgbV3 fl ⟨c.r, c.g, c.b⟩).y, (hsv2rgbV3 fl ⟨c.r, c.g, c.b⟩).z⟩ : V3 α)
+    = hsv2rgbV3 fl ⟨c.r, c.g, c.b⟩ from rfl, rgb2hsv_hsv2rgb_V3 hfl _ _ _ hh0 hh1 hs hv]
+
+/-! integer element types -/
+
+/-- the Vec3 and Color4 integer wrappers agree on r, g, b when both scale the same way -/
+theorem rgb2hsvC4I_eq_V3I (si : Int → α) (so : α → Int) (c : C4 Int) :
+    rgb2hsvC4I si so c = ⟨(rgb2hsvV3I si so ⟨c.r, c.g, c.b⟩).x, (rgb2hsvV3I si so ⟨c.r, c.g, c.b⟩).y,
+      (rgb2hsvV3I si so ⟨c.r, c.g, c.b⟩).z, so (si c.a)⟩ := by
+  unfold rgb2hsvC4I rgb2hsvV3I
+  simp only []
+  rw [rgb2hsvC4_eq_V3]
+
+theorem hsv2rgbC4I_eq_V3I (fl : α → Int) (si : Int → α) (so : α → Int) (c : C4 Int) :
+    hsv2rgbC4I fl si so c = ⟨(hsv2rgbV3I fl si so ⟨c.r, c.g, c.b⟩).x, (hsv2rgbV3I fl si so ⟨c.r, c.g, c.b⟩).y,
+      (hsv2rgbV3I fl si so ⟨c.r, c.g, c.b⟩).z, so (si c.a)⟩ := by
+  unfold hsv2rgbC4I hsv2rgbV3I
+  simp only []
+  rw [hsv2rgbC4_eq_V3]
+
+/-- scaling by the type maximum and back is the identity in exact arithmetic, PROVIDED the
+divisor and the multiplier are the same number (`float (max) = double (max) = max`) -/
+theorem scale_roundtrip (toT : α → Int) (hT : ∀ n : Int, toT (n : α) = n) (M : α) (hM : M ≠ 0) (a : Int) :
+    toT ((a : α) / M * M) = a := by
+  rw [div_mul_cancel₀ _ hM, hT]
+
+/-- alpha passes through the Color4 integer wrappers when `float (max) = max` exactly -/
+theorem rgb2hsvC4I_alpha (toT : α → Int) (hT : ∀ n : Int, toT (n : α) = n) (M : α) (hM : M ≠ 0) (c : C4 Int) :
+    (rgb2hsvC4I (fun n => (n : α) / M) (fun x => toT (x * M)) c).a = c.a := by
+  rw [rgb2hsvC4I_eq_V3I]; exact scale_roundtrip toT hT M hM c.a
+
+theorem hsv2rgbC4I_alpha (fl : α → Int) (toT : α → Int) (hT : ∀ n : Int, toT (n : α) = n) (M : α) (hM : M ≠ 0)
+    (c : C4 Int) :
+    (hsv2rgbC4I fl (fun n => (n : α) / M) (fun x => toT (x * M)) c).a = c.a := by
+  rw [hsv2rgbC4I_eq_V3I]; exact scale_roundtrip toT hT M hM c.a
+end
+
+/-- GENUINE DEFECT (DESIGN §7 item 7), already in exact arithmetic: for `T = int` the Color4
+wrappers divide by `float (INT_MAX) = 2^31` but multiply by `INT_MAX = 2^31 - 1`; with the cast
+`(T)` truncating, alpha 5 comes back as 4 (every alpha in 1 … 2^31-2 loses one). -/
+theorem rgb2hsvC4I_int_alpha_defect (r g b : Int) :
+    (rgb2hsvC4I (α := ℚ) (fun n => (n : ℚ) / 2147483648) (fun x => ⌊x * 2147483647⌋) ⟨r, g, b, 5⟩).a = 4 := by
+  rw [rgb2hsvC4I_eq_V3I]
+  show ⌊((5 : Int) : ℚ) / 2147483648 * 2147483647⌋ = 4
+  rw [Int.floor_eq_iff]; norm_num
+
+section
+variable {α : Type} [Field α] [LinearOrder α] [IsStrictOrderedRing α]
+/-- exact-arithmetic version of one packed channel: `(PackedColor) ((k * (1/255)) * 255) = k` -/
+theorem packed_channel_exact (toU : α → Nat) (hU : ∀ n : Nat, toU (n : α) = n) (k : Nat) :
+    toU (((k : α) * (1 / 255)) * 255) = k := by
+  have : ((k : α) * (1 / 255)) * 255 = (k : α) := by field_simp
+  rw [this, hU]
+
+theorem rgb2packed_packed2rgb_exact_C4 (toU : α → Nat) (hU : ∀ n : Nat, toU (n : α) = n) (p : Nat) :
+    rgb2packedC4 toU (packed2rgbC4 (α := α) p) =
+      (p &&& 0xFF) ||| u32 (((p &&& 0xFF00) >>> 8) <<< 8) ||| u32 (((p &&& 0xFF0000) >>> 16) <<< 16) |||
+        u32 (((p &&& 0xFF000000) >>> 24) <<< 24) := by
+  unfold rgb2packedC4 packed2rgbC4
+  simp only [packed_channel_exact toU hU]
+
+theorem rgb2packed_packed2rgb_exact_V3 (toU : α → Nat) (hU : ∀ n : Nat, toU (n : α) = n) (p : Nat) :
+    rgb2packedV3 toU (packed2rgbV3 (α := α) p) =
+      (p &&& 0xFF) ||| u32 (((p &&& 0xFF00) >>> 8) <<< 8) ||| u32 (((p &&& 0xFF0000) >>> 16) <<< 16) |||
+        0xFF000000 := by
+  unfold rgb2packedV3 packed2rgbV3
+  simp only [packed_channel_exact toU hU]
+end
+
+
+open ImathVerif.Fun in
+/-- reassembling the four byte fields gives the word back -/
+theorem bytes_reassemble (p : Nat) (hp : p < 4294967296) :
+    (p &&& 0xFF) ||| u32 (((p &&& 0xFF00) >>> 8) <<< 8) ||| u32 (((p &&& 0xFF0000) >>> 16) <<< 16) |||
+        u32 (((p &&& 0xFF000000) >>> 24) <<< 24) = p := by
+  have e0 : p &&& 0xFF = p % 256 := by
+    have := and_field p 0 8; simpa using this
+  have e1 : p &&& 0xFF00 = (p / 256 % 256) * 256 := by
+    have := and_field p 8 8; simpa using this
+  have e2 : p &&& 0xFF0000 = (p / 65536 % 256) * 65536 := by
+    have := and_field p 16 8; simpa using this
+  have e3 : p &&& 0xFF000000 = (p / 16777216 % 256) * 16777216 := by
+    have := and_field p 24 8; simpa using this
+  rw [e0, e1, e2, e3]
+  simp only [Nat.shiftRight_eq_div_pow, Nat.shiftLeft_eq, u32]
+  have c0 : p % 256 < 2 ^ 8 := by omega
+  have s1 : p / 256 % 256 * 256 / 2 ^ 8 * 2 ^ 8 % 4294967296 = (p / 256 % 256) <<< 8 := by
+    rw [Nat.shiftLeft_eq]; omega
+  have s2 : p / 65536 % 256 * 65536 / 2 ^ 16 * 2 ^ 16 % 4294967296 = (p / 65536 % 256) <<< 16 := by
+    rw [Nat.shiftLeft_eq]
+    have hc : p / 65536 % 256 < 256 := Nat.mod_lt _ (by decide)
+    generalize p / 65536 % 256 = c at hc ⊢
+    rw [show (2:Nat) ^ 16 = 65536 from rfl, Nat.mul_div_cancel _ (by decide), Nat.mod_eq_of_lt (by omega)]
+  have s3 : p / 16777216 % 256 * 16777216 / 2 ^ 24 * 2 ^ 24 % 4294967296 = (p / 16777216 % 256) <<< 24 := by
+    rw [Nat.shiftLeft_eq]
+    have hc : p / 16777216 % 256 < 256 := Nat.mod_lt _ (by decide)
+    generalize p / 16777216 % 256 = c at hc ⊢
+    rw [show (2:Nat) ^ 24 = 16777216 from rfl, Nat.mul_div_cancel _ (by decide), Nat.mod_eq_of_lt (by omega)]
+  rw [s1, s2, s3]
+  rw [Nat.or_comm (p % 256), ← Nat.shiftLeft_add_eq_or_of_lt c0]
+  have c1 : (p / 256 % 256) <<< 8 + p % 256 < 2 ^ 16 := by rw [Nat.shiftLeft_eq]; omega
+  rw [Nat.or_comm _ ((p / 65536 % 256) <<< 16), ← Nat.shiftLeft_add_eq_or_of_lt c1]
+  have c2 : (p / 65536 % 256) <<< 16 + ((p / 256 % 256) <<< 8 + p % 256) < 2 ^ 24 := by
+    simp only [Nat.shiftLeft_eq]; omega
+  rw [Nat.or_comm _ ((p / 16777216 % 256) <<< 24), ← Nat.shiftLeft_add_eq_or_of_lt c2]
+  simp only [Nat.shiftLeft_eq]; omega
+
+open ImathVerif.Fun in
+theorem bytes_reassemble_V3 (p : Nat) (hp : p < 4294967296) (h : p / 16777216 = 255) :
+    (p &&& 0xFF) ||| u32 (((p &&& 0xFF00) >>> 8) <<< 8) ||| u32 (((p &&& 0xFF0000) >>> 16) <<< 16) |||
+        0xFF000000 = p := by
+  have e3 : u32 (((p &&& 0xFF000000) >>> 24) <<< 24) = 0xFF000000 := by
+    have := and_field p 24 8
+    have e : p &&& 0xFF000000 = (p / 16777216 % 256) * 16777216 := by simpa using this
+    rw [e, h]; decide
+  have := bytes_reassemble p hp
+  rw [e3] at this
+  exact this
+
 end ImathVerif.ColorAlgo
